@@ -44,6 +44,10 @@ def gen(rnd):
             beads = ['BB'] + ['SC%d' % (s + 1) for s in range(rnd.choice([0, 0, 1, 2]))]
             res.append({'old': old, 'resname': rnd.choice(['ALA', 'CYS', 'LYS']), 'beads': beads,
                         'pos': [[rnd.uniform(0, scale) for _ in range(3)] for _ in beads]})
+            if i and rnd.random() < 0.12:
+                # a chain break: this residue is not bonded to the previous one although their numbers are close (a missing
+                # loop): along the residue graph the two are far apart or not connected at all
+                res[-1]['break_before'] = True
         chains.append({'chain': chain, 'res': res})
     allres = [(ci, ri) for ci, ch in enumerate(chains) for ri in range(len(ch['res']))]
     cross = []
@@ -134,7 +138,7 @@ def build(case):
                              position=np.array(pos, dtype=float), tag=(ci, ri, nm))
                 if nm == 'BB':
                     bbk = k
-                    if prev is not None:
+                    if prev is not None and not r.get('break_before'):
                         mol.add_edge(prev, k)
                     prev = k
                 else:
